@@ -269,7 +269,10 @@ func suiteKdf(c *Ctx) {
 	if c.Thorough() {
 		per = 12
 	}
-	for _, si := range schemeInfos {
+	for sidx, si := range schemeInfos {
+		if !c.Scheme(sidx) {
+			continue
+		}
 		lens := append([]int{}, boundaryLens...)
 		for i := 0; i < 20*per; i++ {
 			lens = append(lens, c.Rng.Intn(301))
@@ -314,7 +317,10 @@ func suiteGuards(c *Ctx) {
 		c.Op(a.op("accepts"), r)
 		c.Count(a.scheme + ":" + strings.SplitN(r, " ", 3)[0] + ":" + strings.SplitN(r+" - -", " ", 3)[1])
 	}
-	for _, si := range schemeInfos {
+	for sidx, si := range schemeInfos {
+		if !c.Scheme(sidx) {
+			continue
+		}
 		base := func() keyArgs {
 			a := c.validArgs(si, 6)
 			a.rounds = si.rounds[0]
